@@ -125,7 +125,7 @@ def classify(clause, lines):
 class C05(Check):
     prop = "C05"
     required_theorems = ["in_downtime_iff", "depth_eq_count", "trigger_write_once", "trigger_write_once_run",
-                         "trigger_only_in_window", "trigger_cascade", "flexible_trigger", "start_once",
+                         "trigger_only_in_window", "trigger_cascade", "trigger_cascade_deep", "flexible_trigger", "flexible_trigger_exact", "start_once",
                          "started_partial", "started_counterexample", "end_once", "expired_removed", "owner_protected",
                          "model_trace_meets_spec_partial"]
     technique = ("Lean 4 proof (invariants over the operation sequence) about a hand-written model of lib/icinga/downtime.cpp; correspondence by "
@@ -133,7 +133,7 @@ class C05(Check):
     level_text = ("Machine-checked theorems (Lean 4 kernel) about the executable model of Downtime::IsInEffect/IsTriggered/IsExpired/CanBeTriggered/"
                   "TriggerDowntime/Start/DowntimesStartTimerHandler/cleanup timer/RemoveDowntime and Checkable::TriggerDowntimes/GetDowntimeDepth/"
                   "IsInDowntime, including a whole-trace theorem (model_trace_meets_spec_partial: every well-formed operation sequence's model trace "
-                  "satisfies 9 of the 16 clause kinds of the executable specification through the specification's own bookkeeping); the model is tied to the code by running the real objects (direct construction as test/icinga-checkresult.cpp does, "
+                  "satisfies every clause kind except the two falsified by F-C05c (14 of 16) of the executable specification through the specification's own bookkeeping); the model is tied to the code by running the real objects (direct construction as test/icinga-checkresult.cpp does, "
                   "and one case in eight through ConfigObjectUtility::CreateObject / Downtime::AddDowntime in a scratch data directory) on generated "
                   "operation sequences and diffing every observation; the executable specification of the property is evaluated on the "
                   "implementation's own trace")
